@@ -520,7 +520,8 @@ func buildResourceTrafficShapingController(res string, resRules []*Rule, oldResT
 // budget belongs to the rule. Taken over as it is, the budget left under the replaced rule went on
 // deciding until the window had passed: after lowering a threshold from 100 to 1 the value could still
 // spend its 99, after raising it from 1 to 100 it stayed exhausted. What was consumed stays consumed:
-// left' = left + (budget' - budget), within [0, budget'].
+// left' = left + (budget' - budget), at most budget' (and negative when more was consumed than the
+// new budget allows).
 // The adjusted counters are COPIES: the old controllers are still published while the new ones are
 // being built, and rewriting the counters they read would let the old rule list decide on the new
 // rule's budget. When no budget changes the metric itself is handed on.
@@ -583,10 +584,11 @@ func metricForBudgetOf(oldRule, newRule *Rule, metric *ParamsMetric) *ParamsMetr
 		if consumed < 0 {
 			consumed = 0
 		}
+		// (not clamped at zero: a value that has consumed more than the new budget is in debt for the rest
+		// of its window. Forgetting the debt handed the tokens out a second time as soon as the budget was
+		// raised again - 10 consumed, budget lowered to 1 and restored to 10: 9 more. The debt ends with the
+		// window: the refill starts from zero.)
 		left := is - consumed
-		if left < 0 {
-			left = 0
-		}
 		copied.RuleTokenCounter.Add(key, &left)
 	}
 	return copied
